@@ -558,6 +558,15 @@ func (w *World) UpdateReporterParams(signer string, maxSel uint64, minTrb int64)
 	return w.do("UpdateReporterParams", Rec{"who": w.Name(signer), "maxsel": int(maxSel), "mintrb": NumI64(minTrb)}, &reportertypes.MsgUpdateParams{Authority: signer, Params: p})
 }
 
+// UpdateStakingParams: the SDK staking module's own governance message (validator cap, unbonding time).
+func (w *World) UpdateStakingParams(signer string, maxVals uint32, unbonding time.Duration) PhaseResult {
+	p, _ := w.App.StakingKeeper.GetParams(w.Ctx)
+	p.MaxValidators = maxVals
+	p.UnbondingTime = unbonding
+	return w.do("UpdateStakingParams", Rec{"who": w.Name(signer), "maxvals": int(maxVals), "unbondms": NumI64(unbonding.Milliseconds())},
+		&stakingtypes.MsgUpdateParams{Authority: signer, Params: p})
+}
+
 func (w *World) UpdateSnapshotLimit(signer string, limit uint64) PhaseResult {
 	return w.do("UpdateSnapshotLimit", Rec{"who": w.Name(signer), "limit": int(limit)}, &bridgetypes.MsgUpdateSnapshotLimit{Authority: signer, Limit: limit})
 }
@@ -611,6 +620,14 @@ func (w *World) valueClass(q, v string) string {
 // (observed stake; the spec sums what counts).
 func (w *World) selectorTokens(a *Actor) []Rec {
 	out := []Rec{}
+	// validators that the staking module's "bonded validators by power" walk reaches right now (at most MaxValidators
+	// entries of the power index, which follows delegations at once, while the bonded STATUS changes at the end of a block)
+	intop := map[string]bool{}
+	_ = w.App.StakingKeeper.IterateBondedValidatorsByPower(w.Ctx, func(_ int64, v stakingtypes.ValidatorI) bool {
+		intop[v.GetOperator()] = true
+		return false
+	})
+	maxvals, _ := w.App.StakingKeeper.MaxValidators(w.Ctx)
 	_ = w.App.ReporterKeeper.Selectors.Walk(w.Ctx, nil, func(k []byte, sel reportertypes.Selection) (bool, error) {
 		if string(sel.Reporter) != string(a.Addr.Bytes()) {
 			return false, nil
@@ -623,7 +640,7 @@ func (w *World) selectorTokens(a *Actor) []Rec {
 				continue
 			}
 			out = append(out, Rec{"sel": w.Name(sdk.AccAddress(k).String()), "val": w.Name(d.ValidatorAddress), "tok": NumInt(v.TokensFromShares(d.Shares).TruncateInt()),
-				"bonded": v.IsBonded(), "locked": ms(sel.LockedUntilTime), "cnt": int(sel.DelegationsCount)})
+				"bonded": v.IsBonded(), "locked": ms(sel.LockedUntilTime), "cnt": int(sel.DelegationsCount), "intop": intop[d.ValidatorAddress], "maxvals": int(maxvals)})
 		}
 		return false, nil
 	})
